@@ -109,6 +109,7 @@ class Target(object):
         """Block (polling) until the thread rests inside its lock.acquire() call or is dead.
         Polling time never enters a log."""
         n = 0
+        t0 = None
         while True:
             if self.done:
                 self.thread.join(20)
@@ -116,9 +117,15 @@ class Target(object):
             if self.is_parked() and self.go.locked():
                 return
             n += 1
-            if n > 200000:
-                raise HarnessError("target %s did not park" % self.name)
-            time.sleep(0)
+            if n > 2000:
+                # a loaded machine: stop spinning, wait by the clock (never logged)
+                if t0 is None:
+                    t0 = time.time()
+                elif time.time() - t0 > 45:
+                    raise HarnessError("target %s did not park" % self.name)
+                time.sleep(0.0002)
+            else:
+                time.sleep(0)
 
     def step(self):
         """Let the target run to its next yield point (or to its end)."""
